@@ -96,9 +96,10 @@ type hist struct {
 	nRej    int
 	st      setup
 	// second round
-	x      *xext               // non-nil: extended history (chain_test.go)
-	idx    map[string][]string // ghost of the creator -> denoms index, by the creator string as written
-	addrBy map[int64]sdk.AccAddress
+	lastErr error
+	x       *xext               // non-nil: extended history (chain_test.go)
+	idx     map[string][]string // ghost of the creator -> denoms index, by the creator string as written
+	addrBy  map[int64]sdk.AccAddress
 }
 
 func userAddr(i int) sdk.AccAddress {
@@ -286,6 +287,7 @@ func (h *hist) deliver(kind string, vb func() error, call func(ctx sdk.Context) 
 			}
 		}()
 		r, err := call(cctx)
+		h.lastErr = err
 		code = classify(kind, err)
 		if err == nil {
 			ret = r
@@ -323,6 +325,7 @@ func (h *hist) exec(r opRec) {
 		snap := h.feeSnap(r.Sender)
 		defer func() { h.feeOracle(r.Kind, r.Sender, code == 0, snap) }()
 		m := tftypes.NewMsgCreateDenom(r.Sender, r.Denom)
+		m.Metadata.Signers = h.signersFor(r.Sender)
 		code, ret = h.deliver(r.Kind, m.ValidateBasic, func(c sdk.Context) (string, error) {
 			resp, err := h.e.srv.CreateDenom(c, m)
 			if err != nil {
@@ -343,10 +346,12 @@ func (h *hist) exec(r opRec) {
 		coin := sdk.Coin{Denom: r.Denom, Amount: sdkmath.NewIntFromBigInt(amt)}
 		if r.Kind == "mint" {
 			m := tftypes.NewMsgMint(r.Sender, coin)
+			m.Metadata.Signers = h.signersFor(r.Sender)
 			code, _ = h.deliver(r.Kind, m.ValidateBasic, func(c sdk.Context) (string, error) { _, err := h.e.srv.Mint(c, m); return "", err })
 			term = fmt.Sprintf("KMint %d %d %s", h.S(r.Sender), h.S(r.Denom), zx(amt))
 		} else {
 			m := tftypes.NewMsgBurn(r.Sender, coin)
+			m.Metadata.Signers = h.signersFor(r.Sender)
 			code, _ = h.deliver(r.Kind, m.ValidateBasic, func(c sdk.Context) (string, error) { _, err := h.e.srv.Burn(c, m); return "", err })
 			term = fmt.Sprintf("KBurn %d %d %s", h.S(r.Sender), h.S(r.Denom), zx(amt))
 		}
@@ -354,6 +359,7 @@ func (h *hist) exec(r opRec) {
 	case "chadmin":
 		before = h.observe(target)
 		m := tftypes.NewMsgChangeAdmin(r.Sender, r.Denom, r.NewAdmin)
+		m.Metadata.Signers = h.signersFor(r.Sender)
 		code, _ = h.deliver(r.Kind, m.ValidateBasic, func(c sdk.Context) (string, error) { _, err := h.e.srv.ChangeAdmin(c, m); return "", err })
 		term = fmt.Sprintf("KChangeAdmin %d %d %d", h.S(r.Sender), h.S(r.Denom), h.S(r.NewAdmin))
 		watchD = append(watchD, target)
@@ -361,6 +367,7 @@ func (h *hist) exec(r opRec) {
 		before = h.observe(target)
 		md := metaFor(r.Denom, r.Tag, r.BadMeta)
 		m := tftypes.NewMsgSetDenomMetadata(r.Sender, md)
+		m.Metadata.Signers = h.signersFor(r.Sender)
 		code, _ = h.deliver(r.Kind, m.ValidateBasic, func(c sdk.Context) (string, error) { _, err := h.e.srv.SetDenomMetadata(c, m); return "", err })
 		term = fmt.Sprintf("KSetMeta %d %d %s %d", h.S(r.Sender), h.S(r.Denom), emit.Bool(md.Validate() == nil), r.Tag)
 		watchD = append(watchD, target)
@@ -418,7 +425,7 @@ func (h *hist) exec(r opRec) {
 		h.nRej++
 	}
 	if code == 99 {
-		h.violate("C16:unclassified-error", fmt.Sprintf("%s returned an error the harness cannot classify", r.Kind))
+		h.violate("C16:unclassified-error", fmt.Sprintf("%s returned an error the harness cannot classify: %v", r.Kind, h.lastErr))
 	}
 
 	// ---- direct oracle on the real state ----
@@ -447,6 +454,18 @@ func (h *hist) exec(r opRec) {
 		return
 	}
 	h.steps = append(h.steps, fmt.Sprintf("Step (%s) %d %d %s", term, code, nd+1, emit.List(obs)))
+}
+
+// signersFor: in first-round histories the signer is the creator (the constructors' choice).  In
+// extended histories every other message is signed by some OTHER valid account: ValidateBasic must
+// judge the creator on its own, whoever signs (binding creator to signers is the ante decorator's
+// job, property C03).
+func (h *hist) signersFor(creator string) []string {
+	if h.x != nil && len(h.ops)%2 == 1 {
+		h.run.Count("signers", "other-valid-account")
+		return []string{h.users[len(h.ops)%len(h.users)].String()}
+	}
+	return []string{creator}
 }
 
 func (h *hist) addGhost(d string, x *big.Int) {
